@@ -152,6 +152,24 @@ def parallax_plain_claim(mask_name):
     return claim
 
 
+def _geometric_shifts(dp, mask):
+    """grad chi(k_i) / 2 pi at the bright-field pixels, by central differences of the real aberration *surface* in float64 (exact
+    for the quadratic defocus / astigmatism surface) - independent of the gradient routines the reconstruction itself calls"""
+    from quantem.diffractive_imaging import complex_probe as cp
+    kx, ky = cp.spatial_frequencies(dp.gpts, dp.sampling, rotation_angle=dp.rotation_angle)
+    kx, ky = kx.double()[torch.as_tensor(mask)], ky.double()[torch.as_tensor(mask)]
+    coefs = {k: float(v) for k, v in dp.hyperparameter_state.current_aberrations(None).items()}
+    lam = float(dp.wavelength)
+
+    def chi(ax, ay):
+        return cp.aberration_surface(torch.sqrt(ax * ax + ay * ay) * lam, torch.arctan2(ay, ax), lam, coefs)
+    h = 1e-3
+    gx = (chi(kx + h, ky) - chi(kx - h, ky)) / (2 * h)
+    gy = (chi(kx, ky + h) - chi(kx, ky - h)) / (2 * h)
+    fd = (torch.stack((gx, gy), -1) / (2 * np.pi)).numpy()
+    return fd
+
+
 def parallax_shift_claim(mask_name, aberr, rotation=0.0):
     """with defocus / astigmatism the parallax reconstruction is the same sum after translating image i by the geometric
     shift grad chi(k_i) / 2 pi; the translation is written here independently as an explicit Fourier phase ramp"""
@@ -163,8 +181,7 @@ def parallax_shift_claim(mask_name, aberr, rotation=0.0):
             out = _recon(dp, "prlx", parallax_flip_phase=False).sum(dim=0)
             nbf = int(mask.sum())
             w = _bf_weight(dp, mask)
-            shifts = dp._return_lateral_shifts(dp.rotation_angle, dp.hyperparameter_state.current_aberrations(None),
-                                               torch.as_tensor(mask)).double().numpy()
+            shifts = _geometric_shifts(dp, mask)
             qx = np.fft.fftfreq(4, d=5.0)[:, None]
             qy = np.fft.fftfreq(4, d=5.0)[None, :]
             acc = 0
@@ -183,6 +200,7 @@ def cases(tier):
     out.append(("parallax_shifted[5px;defocus]", parallax_shift_claim("5px", {"C10": 80.0}), L))
     out.append(("parallax_shifted[4px;defocus+astigmatism]", parallax_shift_claim("4px", {"C10": -60.0, "C12": 25.0, "phi12": 0.4}), L))
     out.append(("parallax_shifted[3px;defocus;rotation 0.3]", parallax_shift_claim("3px", {"C10": 80.0}, rotation=0.3), L))
+    out.append(("parallax_shifted[5px;astigmatism;rotation 0.25]", parallax_shift_claim("5px", {"C12": 30.0, "phi12": -1.1}, rotation=0.25), L))
     for k in KERNELS:
         out.append((f"batch[{k};5px]", batch_claim(k, "5px"), L))
         out.append((f"linear[{k};4px]", linear_claim(k, "4px"), L))
